@@ -1540,6 +1540,10 @@ func (c *Cluster) unpinClusterDag(metaPin *api.Pin) error {
 // significant speed when pinning items which are similar to previously pinned
 // content.
 func (c *Cluster) PinUpdate(ctx context.Context, from cid.Cid, to cid.Cid, opts api.PinOptions) (*api.Pin, error) {
+	if c.config.FollowerMode {
+		return nil, errFollowerMode
+	}
+
 	existing, err := c.PinGet(ctx, from)
 	if err != nil { // including when the existing pin is not found
 		return nil, err
